@@ -1,4 +1,7 @@
 import TnVerif.Lemmas.RankSelect
+import TnVerif.Lemmas.FixedRank
+import TnVerif.Lemmas.FixedRankExact
+import TnVerif.Lemmas.FixedRankEx
 import TnVerif.Model.Round
 import Mathlib.Tactic.Ring
 import Mathlib.Algebra.BigOperators.Ring.Finset
@@ -185,9 +188,347 @@ example : SVDok2 2 2 2 (fun i j => if i = j then (if i = 0 then (3 : K) else 1) 
   · intro k l hk hl; interval_cases k <;> interval_cases l <;> simp [Finset.sum_range_succ]
   · intro k l hk hl; interval_cases k <;> interval_cases l <;> simp [Finset.sum_range_succ]
 
--- NOT YET PROVED (full statement), and assumed results absent from Mathlib:
---   two-sided bound of the TT/Tucker fixed-rank error by the tails of the ORIGINAL unfoldings
---   (`_assuming_` Eckart–Young and the monotonicity of singular values under orthogonal projection);
---   CP-ALS monotonicity.
+/-! ## the constructor paths `Tensor(x, ranks_tt=r)`, `Tensor(x, ranks_tucker=r)`, `Tensor(x, eps=e)` (tensor.py:401-408, 436-440)
+
+For a dense array the constructor runs `_full_rank_tt(x)` (`fullRankTT shape x`, row-major entries `x`; `C01.roundtrip`) and then
+`round_tt(rmax=r)` / `round_tucker(rmax=r)` / `round(eps)`.  These are compositions of model functions that already exist:
+
+    Tensor(x, ranks_tt=r)      =  roundTTsem thr δ² (leftSweep (fullRankTT shape x).modes qrs) svds
+    Tensor(x, ranks_tucker=r)  =  roundTuckerSem thr eps ((leftSweep (fullRankTT shape x).modes qrs).map TkMode.ofMode) as
+    Tensor(x, eps=e)           =  roundTuckerSem thr ((1+e)/(1+reached) − 1) ((leftSweep y qrs2).map TkMode.ofMode) as
+                                   with y = roundTTsem thr δ² (leftSweep (fullRankTT shape x).modes qrs1) svds
+
+`qrs` are the QR answers of `orthogonalize(N-1)` (contract `qrOK`), `svds` the SVD answers of the truncation steps `mu = N-1, …, 1`
+each paired with `rmax[mu-1]` (contract `ansOK`), `as` the four kernel answers of every Tucker iteration (contract `tkOK`);
+`δ² = budget2 eps cur (N-1)` with `round_tt`'s own `eps` (default `1e-14`) and `thr` the zero threshold `1e-13` of `truncated_svd`. -/
+
+/-- **`Tensor(x, ranks_tt=r)`: ranks within the request and exact error identity.**  For every dense array `x` (any number of modes, any
+    positive mode sizes), given the kernel contracts: the result has the shape of `x`, is a well-formed chain with boundary ranks 1, every
+    TT rank (bond `mu-1`, listed in processing order) is at most the requested `rmax[mu-1]`, and
+    `‖x − result‖² = Σ_{steps} (sum of the squared singular values discarded at that step)` — an identity, also when `rmax` caps a rank. -/
+theorem fixed_rank_tt_error_eq (thr d2 : K) (shape : List Nat) (x : Nat → K) (qrs : List (QRAns K)) (svds : List (SVDAns K × Nat))
+    (cur : Mode K) (rest : List (Mode K))
+    (hne : shape ≠ []) (hpos : ∀ s ∈ shape, 0 < s) (hlen : qrs.length + 1 = shape.length)
+    (hqr : qrOK (fullRankTT shape x).modes qrs)
+    (hrev : (leftSweep (fullRankTT shape x).modes qrs).reverse = cur :: rest)
+    (hok : ansOK thr d2 (cur :: rest) svds) :
+    boxSum shape (fun is => (x (flat is shape) - dense (roundTTsem thr d2 (leftSweep (fullRankTT shape x).modes qrs) svds) is) ^ 2)
+        = sweepErr thr d2 (cur :: rest) svds ∧
+    fixedrank_bondsLE (roundTTsem thr d2 (leftSweep (fullRankTT shape x).modes qrs) svds).reverse svds ∧
+    (roundTTsem thr d2 (leftSweep (fullRankTT shape x).modes qrs) svds).map (·.n) = shape ∧
+    wf 1 (roundTTsem thr d2 (leftSweep (fullRankTT shape x).modes qrs) svds) ∧
+    outRank 1 (roundTTsem thr d2 (leftSweep (fullRankTT shape x).modes qrs) svds) = 1 := by
+  obtain ⟨a, b, c⟩ := fixedrank_tt_chain thr d2 shape x qrs svds cur rest hne hpos hlen hqr hrev
+  refine ⟨fixedrank_tt_error_eq thr d2 shape x qrs svds cur rest hne hpos hlen hqr hrev hok, ?_, c, a, b⟩
+  unfold roundTTsem
+  rw [List.reverse_reverse]
+  exact fixedrank_sweep_bonds thr d2 svds _
+
+/-- non-vacuity of `fixed_rank_tt_error_eq` (and of `fixed_rank_exact`, `fixed_rank_tt_within_eps`): the dense 2×2 array `diag(3,1)`,
+    `ranks_tt = 7`, with the exact QR and SVD answers, meets every hypothesis -/
+example : ∃ (cur : Mode K) (rest : List (Mode K)), ([2, 2] : List Nat) ≠ [] ∧ (∀ s ∈ ([2, 2] : List Nat), 0 < s) ∧
+    [fixedrankExQ (3 : K) 1].length + 1 = ([2, 2] : List Nat).length ∧
+    qrOK (fullRankTT [2, 2] (fixedrankExX (3 : K) 1)).modes [fixedrankExQ 3 1] ∧
+    (leftSweep (fullRankTT [2, 2] (fixedrankExX (3 : K) 1)).modes [fixedrankExQ 3 1]).reverse = cur :: rest ∧
+    ansOK (0 : K) (budget2 0 cur rest.length) (cur :: rest) [(fixedrankExA 3 1, 7)] := by
+  obtain ⟨cur, rest, h1, h2, _, _, _⟩ := fixedrankEx_hyps (3 : K) 1 (by norm_num) (by norm_num) 0 7
+  refine ⟨cur, rest, by simp, by simp, rfl, h2, h1, ?_⟩
+  obtain ⟨c', r', h1', _, h3', _, _⟩ := fixedrankEx_hyps (3 : K) 1 (by norm_num) (by norm_num) (budget2 0 cur rest.length) 7
+  have := h1.symm.trans h1'
+  simp only [List.cons.injEq] at this
+  obtain ⟨rfl, rfl⟩ := this
+  exact h3'
+
+/-- **exact reproduction when nothing is discarded**: if the discarded tails of all steps sum to zero (e.g. every tail is zero), the
+    result of `Tensor(x, ranks_tt=r)` decompresses to `x` entry by entry -/
+theorem fixed_rank_exact (thr d2 : K) (shape : List Nat) (x : Nat → K) (qrs : List (QRAns K)) (svds : List (SVDAns K × Nat))
+    (cur : Mode K) (rest : List (Mode K))
+    (hne : shape ≠ []) (hpos : ∀ s ∈ shape, 0 < s) (hlen : qrs.length + 1 = shape.length)
+    (hqr : qrOK (fullRankTT shape x).modes qrs)
+    (hrev : (leftSweep (fullRankTT shape x).modes qrs).reverse = cur :: rest)
+    (hok : ansOK thr d2 (cur :: rest) svds) (hzero : sweepErr thr d2 (cur :: rest) svds = 0) :
+    ∀ is, inShape is shape → dense (roundTTsem thr d2 (leftSweep (fullRankTT shape x).modes qrs) svds) is = x (flat is shape) := by
+  have h := fixedrank_tt_error_eq thr d2 shape x qrs svds cur rest hne hpos hlen hqr hrev hok
+  rw [hzero] at h
+  exact fixedrank_eq_of_err_zero shape (fun is => x (flat is shape)) _ h
+
+/-- **`Tensor(x, ranks_tt=r)` honours `round_tt`'s tolerance when the cap is harmless**: if at every step either `rmax` does not bind or
+    all singular values from index `rmax` on are zero (`fixedrank_capOK`), then `‖x − result‖² ≤ eps²·‖x‖²` (`eps` = `round_tt`'s default
+    `1e-14` in the constructor) -/
+theorem fixed_rank_tt_within_eps (thr eps : K) (shape : List Nat) (x : Nat → K) (qrs : List (QRAns K)) (svds : List (SVDAns K × Nat))
+    (cur : Mode K) (rest : List (Mode K))
+    (hne : shape ≠ []) (hpos : ∀ s ∈ shape, 0 < s) (hlen : qrs.length + 1 = shape.length)
+    (hqr : qrOK (fullRankTT shape x).modes qrs)
+    (hrev : (leftSweep (fullRankTT shape x).modes qrs).reverse = cur :: rest)
+    (hok : ansOK thr (budget2 eps cur rest.length) (cur :: rest) svds)
+    (hcap : fixedrank_capOK thr (budget2 eps cur rest.length) (cur :: rest) svds) :
+    boxSum shape (fun is => (x (flat is shape)
+        - dense (roundTTsem thr (budget2 eps cur rest.length) (leftSweep (fullRankTT shape x).modes qrs) svds) is) ^ 2)
+      ≤ eps ^ 2 * boxSum shape (fun is => x (flat is shape) ^ 2) :=
+  fixedrank_tt_within thr eps shape x qrs svds cur rest hne hpos hlen hqr hrev hok hcap
+
+/-- **singular values beyond the rank are zero** (the link between "rank" and "tail"; uses Mathlib's `Matrix.rank_diagonal`,
+    `Matrix.rank_mul_le_left`): if an `m × ι` matrix is at the same time a product `B·C` through `ρ` and the kernel's `U·diag(S)·Vh` with
+    `UᵀU = I`, `Vh·Vhᵀ = I`, `S` non-negative and non-increasing, then `S_l = 0` for all `l ≥ ρ` -/
+theorem singular_values_beyond_rank {ι : Type} [Fintype ι] (m n ρ : Nat) (U : Nat → Nat → K) (S : Nat → K) (Vh : Nat → ι → K)
+    (B : Nat → Nat → K) (C : Nat → ι → K)
+    (hf : ∀ i, i < m → ∀ j, (∑ k ∈ range ρ, B i k * C k j) = ∑ l ∈ range n, U i l * (S l * Vh l j))
+    (hU : ∀ k l, k < n → l < n → (∑ i ∈ range m, U i k * U i l) = if k = l then 1 else 0)
+    (hV : ∀ k l, k < n → l < n → (∑ j, Vh k j * Vh l j) = if k = l then 1 else 0)
+    (hmono : ∀ l l', l ≤ l' → l' < n → S l' ≤ S l) (hnn : ∀ l, l < n → 0 ≤ S l) :
+    ∀ l, ρ ≤ l → l < n → S l = 0 :=
+  fixedrank_sv_zero m n ρ U S Vh B C hf hU hV hmono hnn
+
+/-- **low-rank input, factorisation form**: `ρs` lists, in processing order (bond next to the LAST mode first), ranks such that the
+    unfolding of `x` with the last `j+1` modes as columns is a product through `ρs[j]` (`fixedrank_unfoldAll`), each `ρs[j] ≤ rmax` of that
+    step (`fixedrank_fits`); the SVD kernel returns non-negative, non-increasing singular values (`fixedrank_svSorted`).  Then with
+    `round_tt`'s `eps = 0` the result of `Tensor(x, ranks_tt=r)` reproduces `x` exactly.  Every link is proved: the matrix decomposed at
+    step `mu` is `(orthonormal interface)ᵀ·(unfolding of the current tensor)`, the current tensor is `x` multiplied on the right by the
+    earlier `Vh_rᵀ`, so all these matrices factor through `ρ`; then `singular_values_beyond_rank`. -/
+theorem fixed_rank_exact_of_unfolding_factorisations (thr : K) (shape : List Nat) (x : Nat → K) (qrs : List (QRAns K))
+    (svds : List (SVDAns K × Nat)) (cur : Mode K) (rest : List (Mode K)) (ρs : List Nat)
+    (hne : shape ≠ []) (hpos : ∀ s ∈ shape, 0 < s) (hlen : qrs.length + 1 = shape.length)
+    (hqr : qrOK (fullRankTT shape x).modes qrs)
+    (hrev : (leftSweep (fullRankTT shape x).modes qrs).reverse = cur :: rest)
+    (hok : ansOK thr (budget2 0 cur rest.length) (cur :: rest) svds) (hsort : ∀ Ar ∈ svds, fixedrank_svSorted Ar.1)
+    (hfit : fixedrank_fits ρs svds) (hunf : fixedrank_unfoldAll shape x 0 ρs) :
+    ∀ is, inShape is shape →
+      dense (roundTTsem thr (budget2 0 cur rest.length) (leftSweep (fullRankTT shape x).modes qrs) svds) is = x (flat is shape) := by
+  have hcap := fixedrank_capOK_of_unfold thr _ shape x qrs svds cur rest ρs hne hpos hlen hqr hrev hok hsort hfit hunf
+  have hb := fixedrank_budget_zero cur rest.length
+  rw [hb] at hok hcap ⊢
+  exact fixed_rank_exact thr 0 shape x qrs svds cur rest hne hpos hlen hqr hrev hok (fixedrank_sweepErr_zero thr rest cur svds hok hcap)
+
+/-- non-vacuity of `fixed_rank_exact_of_unfolding_factorisations` with a BINDING cap: the rank-1 array `diag(2,0)` with `ranks_tt = 1` -/
+example : ∃ (cur : Mode K) (rest : List (Mode K)),
+    qrOK (fullRankTT [2, 2] (fixedrankExX (2 : K) 0)).modes [fixedrankExQ 2 0] ∧
+    (leftSweep (fullRankTT [2, 2] (fixedrankExX (2 : K) 0)).modes [fixedrankExQ 2 0]).reverse = cur :: rest ∧
+    ansOK (0 : K) (budget2 0 cur rest.length) (cur :: rest) [(fixedrankExA 2 0, 1)] ∧
+    (∀ Ar ∈ [(fixedrankExA (2 : K) 0, 1)], fixedrank_svSorted Ar.1) ∧
+    fixedrank_fits [1] [(fixedrankExA (2 : K) 0, 1)] ∧ fixedrank_unfoldAll [2, 2] (fixedrankExX (2 : K) 0) 0 [1] := by
+  obtain ⟨cur, rest, h1, h2, _, h4, _⟩ := fixedrankEx_hyps (2 : K) 0 (by norm_num) (by norm_num) 0 1
+  obtain ⟨c', r', h1', _, h3', _, _⟩ := fixedrankEx_hyps (2 : K) 0 (by norm_num) (by norm_num) (budget2 0 cur rest.length) 1
+  have := h1.symm.trans h1'
+  simp only [List.cons.injEq] at this
+  obtain ⟨rfl, rfl⟩ := this
+  exact ⟨cur, rest, h2, h1, h3', h4, ⟨le_refl _, trivial⟩, fixedrankEx_unfold 2⟩
+
+/-- **an array whose unfolding ranks fit the request is reproduced exactly** (the property's clause, with Mathlib's `Matrix.rank`):
+    `fixedrank_rankAll shape x 0 ρs` says `rank (unfolding of x with the last j+1 modes as columns) ≤ ρs[j]` for the matrix
+    `fixedrank_unfoldMat` (entry `(r, q)` = `x[r·ncols + q]`), `fixedrank_fits ρs svds` says `ρs[j] ≤ rmax` of step `j`.  With the kernel
+    contracts (QR; SVD incl. non-negative sorted singular values) and `round_tt`'s `eps = 0`, `Tensor(x, ranks_tt=r).torch() = x`. -/
+theorem fixed_rank_exact_of_unfolding_ranks (thr : K) (shape : List Nat) (x : Nat → K) (qrs : List (QRAns K))
+    (svds : List (SVDAns K × Nat)) (cur : Mode K) (rest : List (Mode K)) (ρs : List Nat)
+    (hne : shape ≠ []) (hpos : ∀ s ∈ shape, 0 < s) (hlen : qrs.length + 1 = shape.length)
+    (hqr : qrOK (fullRankTT shape x).modes qrs)
+    (hrev : (leftSweep (fullRankTT shape x).modes qrs).reverse = cur :: rest)
+    (hok : ansOK thr (budget2 0 cur rest.length) (cur :: rest) svds) (hsort : ∀ Ar ∈ svds, fixedrank_svSorted Ar.1)
+    (hfit : fixedrank_fits ρs svds) (hrank : fixedrank_rankAll shape x 0 ρs) :
+    ∀ is, inShape is shape →
+      dense (roundTTsem thr (budget2 0 cur rest.length) (leftSweep (fullRankTT shape x).modes qrs) svds) is = x (flat is shape) :=
+  fixed_rank_exact_of_unfolding_factorisations thr shape x qrs svds cur rest ρs hne hpos hlen hqr hrev hok hsort hfit
+    (fixedrank_unfoldAll_of_rank shape x ρs 0 hrank)
+
+/-- the same with `round_tt`'s actual tolerance (`eps = 1e-14` in the constructor): low-rank input is reproduced within `eps`, not
+    exactly — the sweep may still discard singular values below the budget `eps²‖x‖²/(N-1)` -/
+theorem fixed_rank_within_eps_of_unfolding_ranks (thr eps : K) (shape : List Nat) (x : Nat → K) (qrs : List (QRAns K))
+    (svds : List (SVDAns K × Nat)) (cur : Mode K) (rest : List (Mode K)) (ρs : List Nat)
+    (hne : shape ≠ []) (hpos : ∀ s ∈ shape, 0 < s) (hlen : qrs.length + 1 = shape.length)
+    (hqr : qrOK (fullRankTT shape x).modes qrs)
+    (hrev : (leftSweep (fullRankTT shape x).modes qrs).reverse = cur :: rest)
+    (hok : ansOK thr (budget2 eps cur rest.length) (cur :: rest) svds) (hsort : ∀ Ar ∈ svds, fixedrank_svSorted Ar.1)
+    (hfit : fixedrank_fits ρs svds) (hrank : fixedrank_rankAll shape x 0 ρs) :
+    boxSum shape (fun is => (x (flat is shape)
+        - dense (roundTTsem thr (budget2 eps cur rest.length) (leftSweep (fullRankTT shape x).modes qrs) svds) is) ^ 2)
+      ≤ eps ^ 2 * boxSum shape (fun is => x (flat is shape) ^ 2) :=
+  fixedrank_tt_within thr eps shape x qrs svds cur rest hne hpos hlen hqr hrev hok
+    (fixedrank_capOK_of_unfold thr _ shape x qrs svds cur rest ρs hne hpos hlen hqr hrev hok hsort hfit
+      (fixedrank_unfoldAll_of_rank shape x ρs 0 hrank))
+
+/-- non-vacuity of `fixed_rank_exact_of_unfolding_ranks` / `fixed_rank_within_eps_of_unfolding_ranks`: `diag(3,1)` (unfolding rank 2),
+    `ranks_tt = 7` -/
+example : ∃ (cur : Mode K) (rest : List (Mode K)),
+    qrOK (fullRankTT [2, 2] (fixedrankExX (3 : K) 1)).modes [fixedrankExQ 3 1] ∧
+    (leftSweep (fullRankTT [2, 2] (fixedrankExX (3 : K) 1)).modes [fixedrankExQ 3 1]).reverse = cur :: rest ∧
+    ansOK (0 : K) (budget2 0 cur rest.length) (cur :: rest) [(fixedrankExA 3 1, 7)] ∧
+    (∀ Ar ∈ [(fixedrankExA (3 : K) 1, 7)], fixedrank_svSorted Ar.1) ∧
+    fixedrank_fits [2] [(fixedrankExA (3 : K) 1, 7)] ∧ fixedrank_rankAll [2, 2] (fixedrankExX (3 : K) 1) 0 [2] := by
+  obtain ⟨cur, rest, h1, h2, _, h4, _⟩ := fixedrankEx_hyps (3 : K) 1 (by norm_num) (by norm_num) 0 7
+  obtain ⟨c', r', h1', _, h3', _, _⟩ := fixedrankEx_hyps (3 : K) 1 (by norm_num) (by norm_num) (budget2 0 cur rest.length) 7
+  have := h1.symm.trans h1'
+  simp only [List.cons.injEq] at this
+  obtain ⟨rfl, rfl⟩ := this
+  exact ⟨cur, rest, h2, h1, h3', h4, ⟨by norm_num, trivial⟩, fixedrankEx_rank _⟩
+
+
+/-- **`Tensor(x, ranks_tucker=r)`: exact error identity.**  `_full_rank_tt`, `orthogonalize(-1)`, identity factors, then the loop of
+    `round_tucker(rmax=r)` (its own `eps`, default `1e-14`): given the kernel contracts of every iteration,
+    `‖x − result‖² = Σ_{modes} (sum of the squared singular values of the factor discarded at that mode)` -/
+theorem fixed_rank_tucker_error_eq (thr eps : K) (shape : List Nat) (x : Nat → K) (qrs : List (QRAns K)) (as : List (TkAns K × Nat))
+    (cur : Mode K) (rest : List (Mode K))
+    (hne : shape ≠ []) (hpos : ∀ s ∈ shape, 0 < s) (hlen : qrs.length + 1 = shape.length)
+    (hqr : qrOK (fullRankTT shape x).modes qrs)
+    (hrev : (leftSweep (fullRankTT shape x).modes qrs).reverse = cur :: rest)
+    (hok : tkOK thr eps shape.length ((cur :: rest).map TkMode.ofMode) as) :
+    boxSum shape (fun is => (x (flat is shape)
+        - dense ((roundTuckerSem thr eps ((leftSweep (fullRankTT shape x).modes qrs).map TkMode.ofMode) as).map TkMode.toMode) is) ^ 2)
+      = tkSweepErr thr eps shape.length ((cur :: rest).map TkMode.ofMode) as :=
+  fixedrank_tucker_error_eq thr eps shape x qrs as cur rest hne hpos hlen hqr hrev hok
+
+/-- **Tucker ranks within the request**: in processing order (`mu = N-1, …, 0`) every Tucker rank of `Tensor(x, ranks_tucker=r)` is at most
+    the mode size and at most `rmax[mu]` (kernels returning reduced factorisations, `tkShapes`) -/
+theorem fixed_rank_tucker_ranks (thr eps : K) (shape : List Nat) (x : Nat → K) (qrs : List (QRAns K)) (as : List (TkAns K × Nat))
+    (cur : Mode K) (rest : List (Mode K))
+    (hne : shape ≠ []) (hpos : ∀ s ∈ shape, 0 < s)
+    (hrev : (leftSweep (fullRankTT shape x).modes qrs).reverse = cur :: rest)
+    (hl : shape.length ≤ as.length)
+    (hok : tkOK thr eps shape.length ((cur :: rest).map TkMode.ofMode) as)
+    (hsh : tkShapes thr eps shape.length ((cur :: rest).map TkMode.ofMode) as) :
+    tkRankRel (roundTuckerSem thr eps ((leftSweep (fullRankTT shape x).modes qrs).map TkMode.ofMode) as).reverse
+      ((cur :: rest).map TkMode.ofMode) as := by
+  obtain ⟨_, _, _, hl0⟩ := fixedrank_fullRankTT_chain shape x hne hpos
+  have hlen' : ((leftSweep (fullRankTT shape x).modes qrs).map TkMode.ofMode).length = shape.length := by
+    rw [List.length_map, leftSweep_length, hl0]
+  have hcl : ((cur :: rest).map TkMode.ofMode).length = shape.length := by
+    rw [List.length_map, ← hrev, List.length_reverse, leftSweep_length, hl0]
+  unfold roundTuckerSem
+  rw [List.reverse_reverse, hlen', ← List.map_reverse, hrev]
+  exact TN.tk_sweep_rank thr eps shape.length as _ (by rw [hcl]; exact hl) hok hsh
+
+/-- exact reproduction by `Tensor(x, ranks_tucker=r)` when nothing is discarded -/
+theorem fixed_rank_tucker_exact (thr eps : K) (shape : List Nat) (x : Nat → K) (qrs : List (QRAns K)) (as : List (TkAns K × Nat))
+    (cur : Mode K) (rest : List (Mode K))
+    (hne : shape ≠ []) (hpos : ∀ s ∈ shape, 0 < s) (hlen : qrs.length + 1 = shape.length)
+    (hqr : qrOK (fullRankTT shape x).modes qrs)
+    (hrev : (leftSweep (fullRankTT shape x).modes qrs).reverse = cur :: rest)
+    (hok : tkOK thr eps shape.length ((cur :: rest).map TkMode.ofMode) as)
+    (hzero : tkSweepErr thr eps shape.length ((cur :: rest).map TkMode.ofMode) as = 0) :
+    ∀ is, inShape is shape →
+      dense ((roundTuckerSem thr eps ((leftSweep (fullRankTT shape x).modes qrs).map TkMode.ofMode) as).map TkMode.toMode) is
+        = x (flat is shape) := by
+  have h := fixedrank_tucker_error_eq thr eps shape x qrs as cur rest hne hpos hlen hqr hrev hok
+  rw [hzero] at h
+  exact fixedrank_eq_of_err_zero shape (fun is => x (flat is shape)) _ h
+
+/-- non-vacuity of the three Tucker theorems: `Tensor(diag(3,1), ranks_tucker=7)` with the exact answers of all kernels -/
+example : ∃ (cur : Mode K) (rest : List (Mode K)),
+    [fixedrankExQ (3 : K) 1].length + 1 = ([2, 2] : List Nat).length ∧
+    qrOK (fullRankTT [2, 2] (fixedrankExX (3 : K) 1)).modes [fixedrankExQ 3 1] ∧
+    (leftSweep (fullRankTT [2, 2] (fixedrankExX (3 : K) 1)).modes [fixedrankExQ 3 1]).reverse = cur :: rest ∧
+    ([2, 2] : List Nat).length ≤ [(fixedrankExTA (3 : K) 1, 7), (fixedrankExTA 3 1, 7)].length ∧
+    tkOK (0 : K) 0 ([2, 2] : List Nat).length ((cur :: rest).map TkMode.ofMode) [(fixedrankExTA 3 1, 7), (fixedrankExTA 3 1, 7)] ∧
+    tkShapes (0 : K) 0 ([2, 2] : List Nat).length ((cur :: rest).map TkMode.ofMode) [(fixedrankExTA 3 1, 7), (fixedrankExTA 3 1, 7)] := by
+  obtain ⟨m0, m1, hms, hD, hI⟩ := fixedrankEx_modes (3 : K) 1
+  have hms' : (fullRankTT [2, 2] (fixedrankExX (3 : K) 1)).modes = [m0, m1] := hms
+  rw [hms']
+  obtain ⟨hqr, hP, hC⟩ := fixedrankEx_orth (3 : K) 1 m0 m1 hD hI
+  obtain ⟨t1, _, t3⟩ := fixedrankEx_tk _ _ hP hC
+  exact ⟨(orthStep m0 m1 (fixedrankExQ 3 1)).2, [(orthStep m0 m1 (fixedrankExQ 3 1)).1], rfl, hqr, rfl, by simp, t1, t3⟩
+
+/-- **`Tensor(x, eps=e)` stays within `e`** (tensor.py:436-440 → `Tensor.round`, tensor.py:2194-2208), branch `reached < eps`:
+    `_full_rank_tt(x)`; `round_tt(e)` (QR answers `qrs1`, SVD answers `svds`) giving `y`; `reached` = the value `tn.relative_error`
+    measured for `y` (hypothesis `hreach`: it is not smaller than the true relative error); `round_tucker((1+e)/(1+reached) − 1)` on `y`
+    (QR answers `qrs2` of its `orthogonalize(-1)`, identity factors, kernel answers `as`).  Given the contracts and no cap in the Tucker
+    sweep: `‖x − Tensor(x, eps=e)‖² ≤ e²·‖x‖²`.  (Composition of `C01.roundtrip`, the gauge lemmas and `C04.round_within_eps`.) -/
+theorem construct_eps_within (thr eps reached : K) (shape : List Nat) (x : Nat → K)
+    (qrs1 : List (QRAns K)) (svds : List (SVDAns K × Nat)) (cur1 : Mode K) (rest1 : List (Mode K))
+    (qrs2 : List (QRAns K)) (as : List (TkAns K × Nat)) (cur2 : Mode K) (rest2 : List (Mode K))
+    (hne : shape ≠ []) (hpos : ∀ s ∈ shape, 0 < s) (hlen1 : qrs1.length + 1 = shape.length)
+    (hqr1 : qrOK (fullRankTT shape x).modes qrs1)
+    (hrev1 : (leftSweep (fullRankTT shape x).modes qrs1).reverse = cur1 :: rest1)
+    (hlen2 : qrs2.length + 1 = shape.length)
+    (hqr2 : qrOK (roundTTsem thr (budget2 eps cur1 rest1.length) (leftSweep (fullRankTT shape x).modes qrs1) svds) qrs2)
+    (hrev2 : (leftSweep (roundTTsem thr (budget2 eps cur1 rest1.length) (leftSweep (fullRankTT shape x).modes qrs1) svds) qrs2).reverse
+      = cur2 :: rest2)
+    (h0 : 0 ≤ reached) (h1 : reached ≤ eps)
+    (hreach : boxSum shape (fun is => (x (flat is shape)
+        - dense (roundTTsem thr (budget2 eps cur1 rest1.length) (leftSweep (fullRankTT shape x).modes qrs1) svds) is) ^ 2)
+      ≤ reached ^ 2 * boxSum shape (fun is => x (flat is shape) ^ 2))
+    (hok : tkOK thr ((1 + eps) / (1 + reached) - 1) shape.length ((cur2 :: rest2).map TkMode.ofMode) as)
+    (hun : tkUncapped thr ((1 + eps) / (1 + reached) - 1) shape.length ((cur2 :: rest2).map TkMode.ofMode) as) :
+    boxSum shape (fun is => (x (flat is shape)
+        - dense ((roundTuckerSem thr ((1 + eps) / (1 + reached) - 1)
+            ((leftSweep (roundTTsem thr (budget2 eps cur1 rest1.length) (leftSweep (fullRankTT shape x).modes qrs1) svds) qrs2).map
+              TkMode.ofMode) as).map TkMode.toMode) is) ^ 2)
+      ≤ eps ^ 2 * boxSum shape (fun is => x (flat is shape) ^ 2) :=
+  fixedrank_construct_eps thr eps reached shape x qrs1 svds cur1 rest1 qrs2 as cur2 rest2 hne hpos hlen1 hqr1 hrev1 hlen2 hqr2 hrev2
+    h0 h1 hreach hok hun
+
+/-- the other branch of `round` inside `Tensor(x, eps=e)` (`reached ≥ eps`, no `rmax`): nothing follows `round_tt(e)`, and the TT
+    stage alone is within `e` (contracts of the QR and SVD kernels; `rmax = None` never binds: `uncapped`) -/
+theorem construct_eps_within_tt_stage (thr eps : K) (shape : List Nat) (x : Nat → K) (qrs : List (QRAns K)) (svds : List (SVDAns K × Nat))
+    (cur : Mode K) (rest : List (Mode K))
+    (hne : shape ≠ []) (hpos : ∀ s ∈ shape, 0 < s) (hlen : qrs.length + 1 = shape.length)
+    (hqr : qrOK (fullRankTT shape x).modes qrs)
+    (hrev : (leftSweep (fullRankTT shape x).modes qrs).reverse = cur :: rest)
+    (hok : ansOK thr (budget2 eps cur rest.length) (cur :: rest) svds)
+    (hun : uncapped thr (budget2 eps cur rest.length) (cur :: rest) svds) :
+    boxSum shape (fun is => (x (flat is shape)
+        - dense (roundTTsem thr (budget2 eps cur rest.length) (leftSweep (fullRankTT shape x).modes qrs) svds) is) ^ 2)
+      ≤ eps ^ 2 * boxSum shape (fun is => x (flat is shape) ^ 2) :=
+  fixedrank_tt_within thr eps shape x qrs svds cur rest hne hpos hlen hqr hrev hok (fixedrank_capOK_of_uncapped thr _ svds _ hun)
+
+/-- non-vacuity of `construct_eps_within`: `Tensor(diag(3,1), eps=0)` with `reached = 0` and the exact answers of all kernels of both
+    stages meets every hypothesis -/
+example : ∃ (cur1 : Mode K) (rest1 : List (Mode K)) (cur2 : Mode K) (rest2 : List (Mode K)),
+    qrOK (fullRankTT [2, 2] (fixedrankExX (3 : K) 1)).modes [fixedrankExQ 3 1] ∧
+    (leftSweep (fullRankTT [2, 2] (fixedrankExX (3 : K) 1)).modes [fixedrankExQ 3 1]).reverse = cur1 :: rest1 ∧
+    qrOK (roundTTsem (0 : K) (budget2 0 cur1 rest1.length)
+      (leftSweep (fullRankTT [2, 2] (fixedrankExX (3 : K) 1)).modes [fixedrankExQ 3 1]) [(fixedrankExA 3 1, 7)]) [fixedrankExQ 3 1] ∧
+    (leftSweep (roundTTsem (0 : K) (budget2 0 cur1 rest1.length)
+      (leftSweep (fullRankTT [2, 2] (fixedrankExX (3 : K) 1)).modes [fixedrankExQ 3 1]) [(fixedrankExA 3 1, 7)])
+        [fixedrankExQ 3 1]).reverse = cur2 :: rest2 ∧
+    (0 : K) ≤ 0 ∧ (0 : K) ≤ 0 ∧
+    boxSum [2, 2] (fun is => (fixedrankExX (3 : K) 1 (flat is [2, 2])
+        - dense (roundTTsem (0 : K) (budget2 0 cur1 rest1.length)
+            (leftSweep (fullRankTT [2, 2] (fixedrankExX (3 : K) 1)).modes [fixedrankExQ 3 1]) [(fixedrankExA 3 1, 7)]) is) ^ 2)
+      ≤ (0 : K) ^ 2 * boxSum [2, 2] (fun is => fixedrankExX (3 : K) 1 (flat is [2, 2]) ^ 2) ∧
+    tkOK (0 : K) ((1 + 0) / (1 + 0) - 1) ([2, 2] : List Nat).length ((cur2 :: rest2).map TkMode.ofMode)
+      [(fixedrankExTA 3 1, 7), (fixedrankExTA 3 1, 7)] ∧
+    tkUncapped (0 : K) ((1 + 0) / (1 + 0) - 1) ([2, 2] : List Nat).length ((cur2 :: rest2).map TkMode.ofMode)
+      [(fixedrankExTA 3 1, 7), (fixedrankExTA 3 1, 7)] := by
+  obtain ⟨cur1, rest1, cur2, rest2, a1, a2, a3, a4, a5, a6, a7, a8⟩ := fixedrankEx_eps (K := K)
+  have e : ((1 + 0) / (1 + 0) - 1 : K) = 0 := by norm_num
+  rw [e]
+  refine ⟨cur1, rest1, cur2, rest2, a1, a2, a3, a4, le_refl _, le_refl _, ?_, a7, a8⟩
+  have h := fixedrank_tt_error_eq (0 : K) (budget2 0 cur1 rest1.length) [2, 2] (fixedrankExX (3 : K) 1) [fixedrankExQ 3 1]
+    [(fixedrankExA 3 1, 7)] cur1 rest1 (by simp) (by simp) rfl a1 a2 a5
+  rw [a6] at h
+  have h' : boxSum [2, 2] (fun is => (fixedrankExX (3 : K) 1 (flat is [2, 2])
+        - dense (roundTTsem (0 : K) (budget2 0 cur1 rest1.length)
+            (leftSweep (fullRankTT [2, 2] (fixedrankExX (3 : K) 1)).modes [fixedrankExQ 3 1]) [(fixedrankExA 3 1, 7)]) is) ^ 2) = 0 := h
+  rw [h']; simp
+
+-- NOT YET PROVED (full statements), and classical facts absent from Mathlib:
+--  * the QUASI-OPTIMALITY clause of C05 — "`‖x − Tensor(x, ranks_tt=r)‖²` is at most the sum over the unfoldings of `x` of the squared
+--    singular values of THAT UNFOLDING discarded at rank `r_k`, and at least the largest single such tail".  What is proved is the exact
+--    identity `fixed_rank_tt_error_eq`: the error equals the sum of the tails of the matrices ACTUALLY decomposed, `M_mu = Xᵀ·A_mu·W`
+--    (`A_mu` the `mu`-th unfolding of `x`, `X` the orthonormal interface of the cores to the left, `W` = the product of the earlier
+--    `Vh_rᵀ`, which has orthonormal columns; `fixedrank_core_factor` / `fixedrank_FacLE_step` establish this product form).  Two classical
+--    facts are missing from Mathlib and were NOT attempted:
+--      (1) Eckart–Young–Mirsky: for `M = U·diag(S)·Vh` (contract `SVDok2`) and every `N` of rank `≤ r`, `‖M − N‖²_F ≥ Σ_{l ≥ r} S_l²`;
+--          equivalently `Σ_{l ≥ r} σ_l(M)² = min_{rank N ≤ r} ‖M − N‖²_F` (`truncation_error` is the "attained" half only);
+--      (2) interlacing / monotonicity of singular values under contraction: `σ_l(P·A·Q) ≤ σ_l(A)` for every `l` when `PᵀP ≤ I`,
+--          `Q·Qᵀ ≤ I` (here `P = Xᵀ`, `Q = W` are partial isometries), a consequence of the Courant–Fischer min-max characterisation.
+--    Upper bound from them: by (2) each tail `Σ_{l ≥ r_mu} σ_l(M_mu)² ≤ Σ_{l ≥ r_mu} σ_l(A_mu)²`, so `fixed_rank_tt_error_eq` gives
+--    `‖x − result‖² ≤ Σ_mu Σ_{l ≥ r_mu} σ_l(A_mu)²`.  Lower bound from (1): the `mu`-th unfolding of the result has rank `≤ r_mu`
+--    (`fixed_rank_tt_error_eq`, bond clause), hence `‖x − result‖² = ‖A_mu − unfolding_mu(result)‖²_F ≥ Σ_{l ≥ r_mu} σ_l(A_mu)²` for every
+--    `mu`, in particular for the largest tail.  The same two facts give the Tucker version from `fixed_rank_tucker_error_eq`.
+--    (Both need the singular values as a FUNCTION of the matrix, i.e. uniqueness of `S` in `SVDok2`, itself a corollary of (1).)
+--  * "exact on low-rank input" IS proved for the TT path with every link (`fixed_rank_exact_of_unfolding_ranks`, Mathlib `Matrix.rank`;
+--    `fixed_rank_exact_of_unfolding_factorisations`); the only added hypothesis beyond the contracts `qrOK`/`ansOK` is
+--    `fixedrank_svSorted` (singular values returned non-negative and non-increasing), and `round_tt`'s `eps` must be `0` for literal
+--    equality — with the constructor's `eps = 1e-14` the statement is `fixed_rank_within_eps_of_unfolding_ranks` (relative error `≤ eps`).
+--    NOT proved: the corresponding statement for `ranks_tucker` in terms of the ranks of the MODE unfoldings of `x` (only
+--    `fixed_rank_tucker_exact`: zero tails ⇒ exact), and the converse direction "factorisation ⇒ `Matrix.rank ≤ ρ`" (not needed);
+--  * both `ranks_tucker` and `ranks_tt` given: `round_tucker` then `round_tt` on a tensor WITH Tucker factors; the second stage starts with
+--    `orthogonalize(N-1)` + `factor_orthogonalize(N-1)` on TT-Tucker cores, whose replay (factor QR) is not modelled
+--    (`C04.roundTT_with_factors` covers the state after it); no composed statement;
+--  * `algorithm='eig'` for all constructor paths, `batch=True`;
+--  * the absolute-zero special case (`S[0] < 1e-13`, e.g. `x = 0`) is excluded by `ansOK` / `tkOK` (`thr ≤ S 0`): for the zero array the
+--    constructor returns rank-1 zero cores, which is exact, but this is not derived here;
+--  * in `construct_eps_within` the measured `reached` enters through the hypothesis `hreach` (`tn.relative_error` is not modelled as a
+--    kernel); the branch `reached ≥ eps` is `construct_eps_within_tt_stage`;
+--  * CP-ALS monotonicity / rank-1 exactness (third sentence of C05): not modelled.
 
 end TN.C05
